@@ -5,8 +5,8 @@ from .. import core
 from ..core import Script, Rng
 from . import b3sum_gen
 
-ARTEFACTS = ["G11-b3sum"]
-EXTRA_PROPS = [("B3.Props.C13T", "B3/Props/C13T.lean")]   # theorems about the code translated from the sources
+ARTEFACTS = ["G11-b3sum", "G12-io"]
+EXTRA_PROPS = [("B3.Props.C13T", "B3/Props/C13T.lean"), ("B3.Props.C11T", "B3/Props/C11T.lean")]   # theorems about the code translated from the sources
 PROPS_MODULE = "B3.B3sum.Props12"
 PROPS_PATH = "B3/B3sum/Props12.lean"
 RULE = ("process-level runs of the real binary (root file = /repo/b3sum/src/main.rs, shim manifest) in a scratch directory: hashing cases "
@@ -75,6 +75,61 @@ class ProcStage:
                                      note=f"b3sum {path} (mmap fails{', RLIMIT_AS=1GiB' if limit else ''}) differs from b3sum --no-mmap on the same file",
                                      impl_output=a.stdout[:200].decode("utf-8", "replace") + f" exit={a.returncode} " + a.stderr[:200].decode("utf-8", "replace"),
                                      spec_output=b.stdout[:200].decode("utf-8", "replace") + f" exit={b.returncode}"))
+            # standard input and a FIFO delivered in bursts (short reads that are not the end of the input): `b3sum -`, `b3sum <fifo>`,
+            # with and without --no-mmap, against the digest of the same bytes in a regular file
+            import threading, time
+            data = b3sum_gen.lcg_bytes(3 * 5000 + 17, 4242) if hasattr(b3sum_gen, "lcg_bytes") else bytes(range(256)) * 59
+            reg = os.path.join(tmpd, "regular.bin")
+            with open(reg, "wb") as f:
+                f.write(data)
+            want = subprocess.run([exe, "--no-names", reg], stdout=subprocess.PIPE, stderr=subprocess.PIPE, timeout=60).stdout
+
+            def feed(fd_or_path, is_path):
+                def run():
+                    try:
+                        fd = os.open(fd_or_path, os.O_WRONLY) if is_path else fd_or_path
+                        for i in range(0, len(data), 5000):
+                            os.write(fd, data[i:i + 5000])
+                            time.sleep(0.05)
+                        os.close(fd)
+                    except OSError:
+                        pass
+                t = threading.Thread(target=run, daemon=True)
+                t.start()
+                return t
+            for extra in ([], ["--no-mmap"]):
+                try:
+                    pr = subprocess.Popen([exe, "--no-names"] + extra + ["-"], stdin=subprocess.PIPE, stdout=subprocess.PIPE, stderr=subprocess.PIPE)
+                    t = feed(pr.stdin.fileno(), False)
+                    t.join(timeout=20)
+                    try:
+                        pr.stdin.close()
+                    except OSError:
+                        pass
+                    got = pr.stdout.read()
+                    pr.wait(timeout=60)
+                except Exception:
+                    continue
+                hist["bursty-stdin"] = hist.get("bursty-stdin", 0) + 1
+                distinct.add("bursty-stdin" + repr(extra))
+                if got != want and len(mism) < 8:
+                    mism.append(dict(kind="impl-vs-spec", impl_name="b3sum", ops=[], impl_differs=True,
+                                     note=f"b3sum {' '.join(extra)} - with standard input written in 5000-byte bursts differs from the digest of the same {len(data)} bytes in a regular file",
+                                     impl_output=got[:100].decode("utf-8", "replace"), spec_output=want[:100].decode("utf-8", "replace")))
+                fifo = os.path.join(tmpd, "fifo" + ("_nm" if extra else ""))
+                try:
+                    os.mkfifo(fifo)
+                    t = feed(fifo, True)
+                    a = subprocess.run([exe, "--no-names"] + extra + [fifo], stdout=subprocess.PIPE, stderr=subprocess.PIPE, timeout=60)
+                    t.join(timeout=20)
+                except Exception:
+                    continue
+                hist["bursty-fifo"] = hist.get("bursty-fifo", 0) + 1
+                distinct.add("bursty-fifo" + repr(extra))
+                if a.stdout != want and len(mism) < 8:
+                    mism.append(dict(kind="impl-vs-spec", impl_name="b3sum", ops=[], impl_differs=True,
+                                     note=f"b3sum {' '.join(extra)} <fifo written in 5000-byte bursts> differs from the digest of the same bytes in a regular file",
+                                     impl_output=a.stdout[:100].decode("utf-8", "replace"), spec_output=want[:100].decode("utf-8", "replace")))
         finally:
             shutil.rmtree(tmpd, ignore_errors=True)
         samples = [b3sum_gen.case_to_json(c) for c in self.cases[:2]]
